@@ -163,7 +163,13 @@ class VTask(Task):
         if kind == "jump":
             done = int(stage.context.get("_jump_count", 0) or 0)
             rec["counter"] = done
-            if done < int(beh.get("times", 1)) and rec["iter"] >= int(beh.get("from_iter", 0)):
+            if beh.get("by_iter"):
+                # decided by the stage's own iteration (number of times it was re-armed), independent of the
+                # engine's _jump_count bookkeeping (which a jump also copies into its target stage)
+                go = rec["iter"] < int(beh.get("times", 1))
+            else:
+                go = done < int(beh.get("times", 1)) and rec["iter"] >= int(beh.get("from_iter", 0))
+            if go:
                 outputs, ctx = self._outs(ref, beh, rec)
                 return TaskResult.jump_to(beh["to"], context=ctx, outputs=outputs)
             return self._finish(ref, beh, rec, then)
